@@ -2,10 +2,13 @@
 export VERIF_EVIDENCE_DIR=/root/.cache/sfverif-trial-evidence; mkdir -p $VERIF_EVIDENCE_DIR  # evidence of trials on changed trees never lands in /verif/evidence
 # tools_matrix.sh [extra Cxx ...]  : for every seeded change, apply it to /repo, run its own property's quick check (plus extras),
 # undo it, and record the outcome in seeded/<id>/meta.json (detected_by) and in /verif/seeded/MATRIX.txt
-cd /verif; : > seeded/MATRIX.txt
+# MATRIX_ONLY="C02f C13f ..." restricts the run to those ids (their old lines in MATRIX.txt are replaced)
+cd /verif
+if [ -z "$MATRIX_ONLY" ]; then : > seeded/MATRIX.txt; else for o in $MATRIX_ONLY; do sed -i "/^$o-/d" seeded/MATRIX.txt; done; fi
 git -C /repo diff --quiet || { echo "/repo is dirty"; exit 2; }
 for d in seeded/*/; do
   id=$(basename $d); prop=${id:0:3}
+  if [ -n "$MATRIX_ONLY" ]; then case " $MATRIX_ONLY " in *" ${id%%-*} "*) ;; *) continue;; esac; fi
   git -C /repo apply /verif/$d/patch.diff || { echo "$id PATCH-FAILS" | tee -a seeded/MATRIX.txt; continue; }
   det=""
   for c in $prop "$@"; do
@@ -22,4 +25,5 @@ m=json.load(open(d+'/meta.json')); m['detected_by']=sorted(set((m.get('detected_
 PY
 done
 (cd /verif/harness && CARGO_NET_OFFLINE=true cargo build -q --release 2>/dev/null; CARGO_NET_OFFLINE=true cargo build -q --profile relassert 2>/dev/null)  # never leave a binary built from a changed tree behind
+sort -o seeded/MATRIX.txt seeded/MATRIX.txt
 git -C /repo status --short | head -3
